@@ -267,7 +267,7 @@ func (f *FuncCFG) reach(from Point, o *searchOpts, target func(pt Point, atExit 
 		return nil
 	}
 	nilness := func(e ast.Expr, facts map[types.Object]bool, rets map[*region]int8) int8 {
-		e = ast.Unparen(e)
+		e = ast.Unparen(errorPassthrough(f.Info, e))
 		if isNil(f.Info, e) {
 			return -1
 		}
@@ -275,7 +275,7 @@ func (f *FuncCFG) reach(from Point, o *searchOpts, target func(pt Point, atExit 
 			if rg := f.regionByCall(c); rg != nil {
 				return rets[rg]
 			}
-			if isErrorConstructor(calleeShort(f.Info, c)) {
+			if isNonNilErrorConstructor(calleeShort(f.Info, c)) {
 				return 1
 			}
 			if id, isId := ast.Unparen(c.Fun).(*ast.Ident); isId && id.Name == "new" {
@@ -1695,7 +1695,7 @@ func (p *Prog) sentinelError(o types.Object) bool {
 				case *ast.ValueSpec:
 					for i, nm := range x.Names {
 						if pk.TypesInfo.Defs[nm] == v && i < len(x.Values) {
-							if c, isCall := ast.Unparen(x.Values[i]).(*ast.CallExpr); isCall && isErrorConstructor(calleeShort(pk.TypesInfo, c)) {
+							if c, isCall := ast.Unparen(x.Values[i]).(*ast.CallExpr); isCall && isNonNilErrorConstructor(calleeShort(pk.TypesInfo, c)) {
 								res = true
 							}
 						}
@@ -2246,7 +2246,7 @@ func (f *FuncCFG) expand(depth int, onStack map[*types.Func]bool) {
 				if tailOK == nil || len(rs.Results) == 0 {
 					return tail
 				}
-				last := rs.Results[len(rs.Results)-1]
+				last := errorPassthrough(f.Info, rs.Results[len(rs.Results)-1])
 				if boolCorr {
 					if corrIdx < len(rs.Results) {
 						if id, ok := ast.Unparen(rs.Results[corrIdx]).(*ast.Ident); ok {
@@ -2268,7 +2268,7 @@ func (f *FuncCFG) expand(depth int, onStack map[*types.Func]bool) {
 					return tailOK
 				case func() bool {
 					c, ok := ast.Unparen(last).(*ast.CallExpr)
-					return ok && isErrorConstructor(calleeShort(f.Info, c))
+					return ok && isNonNilErrorConstructor(calleeShort(f.Info, c))
 				}():
 					return tailFail
 				}
